@@ -42,6 +42,9 @@ pub struct Stats {
     pub samples: Vec<serde_json::Value>,
     pub faulty_runs: u64,
     pub threads_panicked: u64,
+    /// (run index, history hash, decision-list hash) when VERIF_DUMP_HASHES is set
+    #[serde(default)]
+    pub run_hashes: Vec<(u64, u64, u64)>,
 }
 
 impl Stats {
@@ -90,6 +93,7 @@ impl Stats {
         }
         self.faulty_runs += o.faulty_runs;
         self.threads_panicked += o.threads_panicked;
+        self.run_hashes.extend(o.run_hashes);
     }
 }
 
@@ -143,6 +147,7 @@ pub fn run_chunk(prop: &str, batch_seed: u64, from: u64, to: u64, fixed_family: 
     let p = spec(prop).expect("unknown property");
     let known = known_findings();
     let hunt = std::env::var("VERIF_HUNT").ok();
+    let dump = std::env::var("VERIF_DUMP_HASHES").is_ok();
     let mut st = Stats::default();
     for i in from..to {
         let fam = fixed_family.unwrap_or_else(|| family_of(p, batch_seed, i));
@@ -176,6 +181,10 @@ pub fn run_chunk(prop: &str, batch_seed: u64, from: u64, to: u64, fixed_family: 
         let hh = rec.history_hash();
         st.schedules.insert(rec.out.schedule_hash);
         st.histories.insert(hh);
+        if dump {
+            let dh = crate::model::fnv(&rec.out.decisions.iter().flat_map(|d| d.to_le_bytes()).collect::<Vec<u8>>());
+            st.run_hashes.push((i, hh, dh));
+        }
         // determinism re-check on a sample
         if i % 256 == 0 {
             let rec2 = crate::exec::run_program(&prog, seed, None, false);
